@@ -252,7 +252,7 @@ struct G {
   }
 
   void run() {
-    uint32_t initial_labels = uint32_t(1 + r.below(4));
+    uint32_t initial_labels = uint32_t(1 + r.below(4)) + opt.extra_labels;
     for (uint32_t i = 0; i < initial_labels; i++) new_label();
     while (p.steps.size() < opt.steps) {
       if (r.chance(1, 4)) {
